@@ -20,6 +20,8 @@ import vf
 from vf import VERIF, REPO
 
 KNOWN = os.path.join(VERIF, "known_findings.json")
+EVID_DIR = os.environ.get("VERIF_EVIDENCE_DIR", os.path.join(VERIF, "evidence"))
+REPLAY_DIR = os.environ.get("VERIF_REPLAY_DIR", os.path.join(VERIF, "replay"))
 
 
 def case_sig(case):
@@ -227,8 +229,8 @@ def main(argv=None):
         seen_mech[m] = seen_mech.get(m, 0) + 1
         if seen_mech[m] > 1 or len(replay_paths) >= 8:
             continue
-        os.makedirs(os.path.join(VERIF, "replay"), exist_ok=True)
-        path = os.path.join(VERIF, "replay", f"{prop}-{m}-{r['sig'][:10]}.json")
+        os.makedirs(REPLAY_DIR, exist_ok=True)
+        path = os.path.join(REPLAY_DIR, f"{prop}-{m}-{r['sig'][:10]}.json")
         json.dump({"property": prop, "tier": tier, "seed": seed, "idx": r["idx"],
                    "case": r.get("case"), "violation": v,
                    "all_violations": r.get("violations")},
@@ -284,8 +286,8 @@ def main(argv=None):
     err = validate_evidence(ev)
     if err:
         ev["coverage"]["schema_error"] = err
-    os.makedirs(os.path.join(VERIF, "evidence"), exist_ok=True)
-    json.dump(ev, open(os.path.join(VERIF, "evidence", f"{prop}.json"), "w"), indent=1,
+    os.makedirs(EVID_DIR, exist_ok=True)
+    json.dump(ev, open(os.path.join(EVID_DIR, f"{prop}.json"), "w"), indent=1,
               default=str)
 
     # ---------------- report ----------------
